@@ -19,6 +19,7 @@ import Tumfl.Props.C13
 #print axioms Tumfl.Props.C02_boundary
 #print axioms Tumfl.Props.C08_comment_wf
 #print axioms Tumfl.Props.C08_comment_text
+#print axioms Tumfl.Props.C08_format_tree
 #print axioms Tumfl.Props.C01_default_style
 #print axioms Tumfl.Props.C02_minified_style
 #print axioms Tumfl.Inst.defaultStyle_repr_ok
